@@ -68,6 +68,24 @@ Proof.
   split; [reflexivity|]. cbn. tauto.
 Qed.
 
+Lemma slots_In (P : snode -> Prop) w : forall ch t c, slots P w t ch -> In (Some c) ch -> P c.
+Proof.
+  induction ch as [|o ch IH]; intros t c Hs Hin; [destruct Hin|].
+  cbn in Hs. destruct Hs as [Ho Hr]. destruct Hin as [H|H].
+  - subst o. apply Ho.
+  - eapply IH; eauto.
+Qed.
+
+Lemma slots_strengthen (P Q : snode -> Prop) w : forall ch t,
+  slots P w t ch -> (forall c, In (Some c) ch -> P c -> Q c) -> slots Q w t ch.
+Proof.
+  induction ch as [|o ch IH]; intros t Hs HQ; cbn in *; [exact I|].
+  destruct Hs as [Ho Hr]. split.
+  - destruct o; [|exact I]. destruct Ho. split; [assumption|]. apply HQ; auto.
+  - apply IH; [exact Hr|]. intros c Hc. apply HQ. right. exact Hc.
+Qed.
+
+
 (* ---------- put preserves time and well-formedness ---------- *)
 Lemma put_node_time lvl a b smp n : sn_time (fst (s_put_node lvl a b smp n)) = sn_time n.
 Proof.
